@@ -545,6 +545,11 @@ def install():
     def md_init_after(run, self, a, kw, ctx, res, exc):
         run.models = self
         if exc is None and "interp" in run.want:
+            try:
+                itp = self.interpolation
+                run.emit("MInit", pts=[KL(itp.point(k)) for k in range(self.npt)], fvals=KL(self.fun_val))
+            except Exception as ex:  # pragma: no cover
+                run.emit("RecErr", what="MInit:" + type(ex).__name__)
             _emit_interp(run, self, "MInit", -1)
 
     def _emit_interp(run, models, what, k):
